@@ -457,6 +457,12 @@ WOp(w, ev) ==
             IF ev.kind = "vec"
             THEN LET exp == [i \in 1..Len(mem) |-> <<mem[i][1], w.comp[s][mem[i]]>>]
                  IN [w |-> w, f |-> flag(ev.items # exp, "slice at occupied indices", exp)]
+            ELSE IF ev.kind = "defvec_sparse"
+            THEN \* long default-filled slice: the slots that differ from Default are exactly the
+                 \* occupied ones holding a non-default value, and the slice covers every occupied index
+                 LET exp == SelectSeq([i \in 1..Len(mem) |-> <<mem[i][1], w.comp[s][mem[i]]>>], LAMBDA p : p[2] # <<0, 0>>)
+                     bad == ev.items # exp \/ \E h \in SeqToSet(mem) : h[1] >= ev.len
+                 IN [w |-> w, f |-> flag(bad, "default-filled slice (sparse view)", exp)]
             ELSE IF ev.kind = "defvec"
             THEN LET occ == {h[1] : h \in SeqToSet(mem)}
                      bad == \/ \E h \in SeqToSet(mem) : h[1] >= Len(ev.vals) \/ ev.vals[h[1] + 1] # w.comp[s][h]
@@ -477,6 +483,15 @@ WOp(w, ev) ==
                                           IN Wr([ww EXCEPT !.comp[s][h] = <<ww.comp[s][h][1], ev.writes[i][3]>>], i + 1)
             IN [w |-> Wr(w, 1), f |-> {}]
        [] ev.k = "setemit" -> [w |-> [w EXCEPT !.emit[s] = ev.b], f |-> {}]
+
+\* an insertion at an index the membership mask cannot hold (>= 2^24): the library
+\* panics after the raw insert; the value must be taken out and destroyed again
+\* (exactly once), the storage is unchanged                                (C08)
+OobInsert(w, ev) ==
+  [w |-> IF ev.panicked
+         THEN [w EXCEPT !.led = LedSet(w.led, ev.c[1], "destroyed"), !.zdes = IF w.zst[ev.s] THEN w.zdes + 1 ELSE w.zdes]
+         ELSE w,
+   f |-> IF ~ev.panicked THEN {F("C08", "insertion beyond the mask's range did not fail", ev.c)} ELSE {}]
 
 \* end of a world: everything still held (in storages or in the lazy
 \* queue) is destroyed exactly once; compare with the instrumented ledger
@@ -560,6 +575,7 @@ Dispatch(w, ev) ==
     [] ev.op = "LazyQueue"     -> LazyQueue(w, ev)
     [] ev.op = "SOp"           -> SOp(w, ev)
     [] ev.op = "WOp"           -> WOp(w, ev)
+    [] ev.op = "OobInsert"     -> OobInsert(w, ev)
     [] ev.op = "DropWorld"     -> DropWorld(w, ev)
     [] ev.op = "Panic"         -> Panic(w, ev)
     [] ev.op = "Fault"         -> Fault(w, ev)
